@@ -140,7 +140,7 @@ Restarted(apiNow) ==
 
 ReconcileOne(s, w) ==
   /\ pass = NULL /\ s \in svcQ
-  /\ IF ~gate
+  /\ IF ~gate /\ cache[s] # NULL     \* deletions pass the start-up gate (fix f3481a2)
      THEN /\ svcQ' = svcQ \ {s}
           /\ act' = [op |-> "ReconcileOne", s |-> s, w |-> "ok", gated |-> TRUE]
           /\ w = "ok"
